@@ -179,6 +179,10 @@ var sxDbg []string
 // sxOutput: text written to the in-memory output sink (symbolic executor only).
 func sxOutput() string { return "" }
 
+// sxSeedUsed: the value last given to rand.Seed and whether it is a fixed
+// value (symbolic executor only; natively the harness compares draws instead).
+func sxSeedUsed() (int64, bool) { return 0, false }
+
 func sxOpt(name string, on bool) {}
 func sxOptN(name string, n int)  {}
 func sxNote(s string)            {}
